@@ -11,37 +11,37 @@ BLOCK_ASSUME = ["granularity handler without rules (granularity 1) unless stated
                 "handles passed to free/lookup belong to live allocations"]
 LIN_Q = "linear: all histories of 3 operations (lower/upper request+commit with symbolic size in [1,2B] and alignment 2^0..2^5, free of any live allocation) from an empty 100-byte block"
 LIN_RECIPES = "recipe states: small ring buffer L3(2,1,2), ring buffer L3(3,j,m) (j in {1,2} freed at the front, m in {2,3,4} wrapped around), double stack L2(2,2), stack L1(4) with both middle entries freed, compaction family (36 entries in the first vector, 21 freed in the middle, with and without an upper stack), each followed by arbitrary operations"
-TLSF_Q = "TLSF: all histories of 3 operations (request+commit with symbolic size in [1,2B], alignment 2^0..2^6, strategy in {0,1,2,4}; free of any live allocation) on blocks of 256 and 320 bytes"
+TLSF_Q = "TLSF: recipe state with three holes of symbolic sizes 1..64 in one free list (freed in every order) + 1 operation; all histories of 3 operations (request+commit with symbolic size in [1,2B], alignment 2^0..2^6, strategy in {0,1,2,4}; free of any live allocation) on blocks of 256 and 320 bytes"
 OUT = "histories longer than stated from the stated recipe states; block sizes other than those listed; granularity rules (covered by C09); debug_mem_utils builds"
 
 checks = {}
 checks["C01"] = {
  "level": "model_checking",
- "jobs": [job("Verif_C01_Linear", [0, 2, 3, 4, 5, 6, 7], [0, 1, 2, 3, 4, 5, 6, 7]), job("Verif_C01_TLSF", [0, 1], [0, 1, 2, 10, 11])],
+ "jobs": [job("Verif_C01_Linear", [0, 2, 3, 4, 5, 6, 7], [0, 1, 2, 3, 4, 5, 6, 7]), job("Verif_C01_TLSF", [0, 1, 20], [0, 1, 2, 10, 11, 20, 21])],
  "bounds_quick": LIN_Q + "; " + LIN_RECIPES + " (quick: without the ring-buffer recipe; 2 operations after a recipe, 1 after compaction); " + TLSF_Q,
  "bounds_thorough": "as quick with 4 operations per history (3 after a recipe, 2 after compaction), block sizes 100 and 128 (linear) / 256, 320, 1000 (TLSF), ring-buffer recipe, TLSF recipe T(n<=4,F,pi) + 2 operations",
  "assumptions": BLOCK_ASSUME, "outside": OUT}
 checks["C03"] = {
  "level": "model_checking",
- "jobs": [job("Verif_C03_Linear", [0, 3, 4, 5, 7], [0, 1, 2, 3, 4, 5, 6, 7]), job("Verif_C03_TLSF", [0, 1], [0, 1, 2, 10, 11])],
+ "jobs": [job("Verif_C03_Linear", [0, 3, 4, 5, 7], [0, 1, 2, 3, 4, 5, 6, 7]), job("Verif_C03_TLSF", [0, 1, 20], [0, 1, 2, 10, 11, 20, 21])],
  "bounds_quick": LIN_Q + " and the compaction family with an upper stack + 1 operation; " + TLSF_Q.replace("256 and 320", "256") + ". After every operation: tiling of the enumerated regions, allocation count, free bytes, emptiness flag, Statistics, DetailedStatistics (min/max, unused ranges) against the harness' own live set, and Validate()==nil (Validate is executed symbolically as code under test).",
  "bounds_thorough": "as quick with 4 operations, all linear recipes, TLSF blocks 256/320 and recipe T(n<=4,F,pi)",
  "assumptions": BLOCK_ASSUME, "outside": OUT}
 checks["C05"] = {
  "level": "model_checking",
- "jobs": [job("Verif_C05_TLSF_Lemmas", list(range(15)), list(range(15))), job("Verif_C05_TLSF_Search", [10, 11], [0, 1, 10, 11])],
+ "jobs": [job("Verif_C05_TLSF_Lemmas", list(range(15)), list(range(15))), job("Verif_C05_TLSF_Search", [10, 11], [0, 1, 10, 11, 22])],
  "bounds_quick": "lemmas at full 64-bit width for 15 block sizes (1 .. 2^62+12345): list index and memory class monotone in the size, in range of the arrays sized by Init, next-list rounding only reaches fitting sizes; search: recipe T(2,F,pi) on 256/320-byte blocks (2 allocations, 0-2 frees in any order), then one request with symbolic size, alignment 2^0..2^6, strategy, optional symbolic offset bound, compared with an exhaustive scan of the region list",
- "bounds_thorough": "search additionally from T(n<=4,F,pi)",
+ "bounds_thorough": "search additionally from T(n<=4,F,pi) and from the bucket-boundary recipe on a 1000-byte block (two holes of symbolic size 1..300, symbolic trailing free space 0..200, request size symbolic, every strategy): covers every combination of free-list buckets of hole and request sizes",
  "assumptions": BLOCK_ASSUME + ["granularity rules in force: none (null handler); the granularity-aware variant is part of C09's harness"], "outside": OUT}
 checks["C06"] = {
  "level": "model_checking",
- "jobs": [job("Verif_C06_Linear", [0, 3, 5, 7], [0, 1, 2, 3, 4, 5, 6, 7]), job("Verif_C06_TLSF", [0, 1], [0, 1, 10, 11])],
+ "jobs": [job("Verif_C06_Linear", [0, 3, 5, 7], [0, 1, 2, 3, 4, 5, 6, 7]), job("Verif_C06_TLSF", [0, 1, 20], [0, 1, 10, 11, 20, 21])],
  "bounds_quick": LIN_Q + ", double-stack recipe and compaction family; " + TLSF_Q + "; after the history every remaining allocation is freed in ascending or descending order of age",
  "bounds_thorough": "all linear recipes, 4 operations, TLSF recipes",
  "assumptions": BLOCK_ASSUME, "outside": OUT}
 checks["C13"] = {
  "level": "model_checking",
- "jobs": [job("Verif_C13_Linear", [0, 3, 4, 7], [0, 1, 2, 3, 4, 5, 6, 7]), job("Verif_C13_TLSF", [0, 1], [0, 1, 2, 10])],
+ "jobs": [job("Verif_C13_Linear", [0, 3, 4, 7], [0, 1, 2, 3, 4, 5, 6, 7]), job("Verif_C13_TLSF", [0, 1, 20], [0, 1, 2, 10, 20])],
  "bounds_quick": LIN_Q + " + recipes L2(2,2), L1(4) with 2 operations; " + TLSF_Q + "; every call runs inside a panic catcher; a refusal must leave all observables unchanged. Block level only (the allocator-level clauses are checked by the vam harnesses).",
  "bounds_thorough": "all recipes, 4 operations",
  "assumptions": BLOCK_ASSUME, "outside": OUT + "; stale handles; alignment 0"}
@@ -53,13 +53,13 @@ checks["C16"] = {
  "assumptions": BLOCK_ASSUME + ["granularity 1: no conflict relation in force (granularity bumps are checked against the page rule by C09)"], "outside": OUT}
 checks["C17"] = {
  "level": "model_checking",
- "jobs": [job("Verif_C17_Linear", [0, 3, 4, 7], [0, 1, 2, 3, 4, 5, 6, 7]), job("Verif_C17_TLSF", [0, 1], [0, 1, 10])],
+ "jobs": [job("Verif_C17_Linear", [0, 3, 4, 7], [0, 1, 2, 3, 4, 5, 6, 7]), job("Verif_C17_TLSF", [0, 1, 20], [0, 1, 10, 20])],
  "bounds_quick": LIN_Q + " + recipes L2(2,2), L1(4); " + TLSF_Q + "; after every operation: user data and offset by handle for every live allocation, SetAllocationUserData on each allocation in turn, region visitor and (TLSF) list iteration visit every live allocation exactly once",
  "bounds_thorough": "all recipes, 4 operations",
  "assumptions": BLOCK_ASSUME, "outside": OUT}
 checks["C18"] = {
  "level": "model_checking",
- "jobs": [job("Verif_C18_Linear", [0, 7], [0, 1, 2, 3, 4, 7]), job("Verif_C18_TLSF", [0], [0, 1, 10])],
+ "jobs": [job("Verif_C18_Linear", [0, 7], [0, 1, 2, 3, 4, 7]), job("Verif_C18_TLSF", [0], [0, 1, 10, 20])],
  "bounds_quick": LIN_Q + "; " + TLSF_Q.replace("256 and 320", "256") + "; TLSF: no two adjacent free ranges after every operation; then everything is freed (either order) or the block is cleared, and the block is compared with a freshly initialised one: observables, internal state modulo documented symmetries, and 2 further symbolic requests answered in lock-step",
  "bounds_thorough": "4 operations, linear recipes, TLSF 320 bytes and recipe",
  "assumptions": BLOCK_ASSUME, "outside": OUT}
